@@ -212,6 +212,7 @@ func TestVerifReplayConverge(t *testing.T) {
 		"ruling intent with the other case is deleted":                                    {{name: "O2", prio: 10, json: case2}, {name: "O1", prio: 5, json: case1}, {name: "O1", prio: 5, json: ""}},
 		"unchanged intent re-applied":                                                     {{name: "A", prio: 10, json: ifTwo}, {name: "A", prio: 10, json: ifTwo}},
 		"unchanged intent with leaf-list and pattern re-applied":                          {{name: "A", prio: 10, json: llOne}, {name: "B", prio: 20, json: pattern}, {name: "A", prio: 10, json: llOne}},
+		"unchanged intent whose leaf-list holds an entry twice re-applied":                {{name: "A", prio: 10, json: `{"leaflist":{"entry":["a","b","a"]}}`}, {name: "A", prio: 10, json: `{"leaflist":{"entry":["a","b","a"]}}`}},
 		"leaf-list replaced":                                                              {{name: "A", prio: 10, json: llOne}, {name: "A", prio: 10, json: llTwo}},
 		"leaf-list re-ordered, then an entry replaced":                                    {{name: "A", prio: 10, json: `{"leaflist":{"entry":["a","b","c"]}}`}, {name: "A", prio: 10, json: `{"leaflist":{"entry":["c","a","b"]}}`}, {name: "A", prio: 10, json: `{"leaflist":{"entry":["c","a","d"]}}`}},
 		"intent deleted, then deleted again (the retry of a delete)":                      {{name: "A", prio: 10, json: ifA}, {name: "B", prio: 20, json: pattern}, {name: "A", prio: 10, json: ""}, {name: "A", prio: 10, json: ""}},
@@ -531,6 +532,9 @@ func TestVerifReplayConverge(t *testing.T) {
 				for _, fn := range []string{"(*tree.LeafVariants).GetHighestPrecedence", fnLL} {
 					fmt.Printf("REPLAY-FAIL fn=%s clause=%s input=%s why=the intent is unchanged, yet %d update(s) and %d delete(s) are sent: %v %v\n", fn, clause, in, len(rsp.GetUpdate()), len(rsp.GetDelete()), rsp.GetUpdate(), rsp.GetDelete())
 				}
+				if !strings.HasSuffix(clause, ".known") && len(rsp.GetUpdate()) > 0 {
+					fmt.Printf("REPLAY-FAIL fn=%s clause=compares_values input=%s why=the intent is unchanged and the device runs its values, yet %d update(s) are sent: %v\n", "(*tree.LeafVariants).highestIsUnequalRunning", in, len(rsp.GetUpdate()), rsp.GetUpdate())
+				}
 			}
 			// C01: expected device
 			want := map[string]string{}
@@ -678,4 +682,5 @@ func TestVerifReplayConverge(t *testing.T) {
 	fmt.Printf("REPLAY-CASES fn=%s n=%d\n", "(*tree.sharedEntryAttributes).populateChoiceCaseResolvers", n)
 	fmt.Printf("REPLAY-CASES fn=%s n=%d\n", "(*tree.LeafVariants).Add", n)
 	fmt.Printf("REPLAY-CASES fn=%s n=%d\n", "datastore.cacheUpdateToSdcpbUpdate", n)
+	fmt.Printf("REPLAY-CASES fn=%s n=%d\n", "(*tree.LeafVariants).highestIsUnequalRunning", n)
 }
